@@ -1,7 +1,7 @@
 (* C05 (counting): every rendezvous on the reload channel consumes exactly one pending request and
    begins exactly one pass; hence the passes begun never exceed the requests made. *)
 From Coq Require Import List NArith Bool Arith Lia.
-From GS Require Import LTS Supervisor SupAccept SupProps SupInv SupStop SupOnce SupReload.
+From GS Require Import LTS Supervisor SupAccept SupProps SupInv SupStop SupTrig SupGate SupOnce SupReload SupCensus.
 Import ListNotations.
 
 Definition b2n (b : bool) : nat := if b then 1 else 0.
@@ -115,6 +115,9 @@ Inductive ce_effect (c : config) (s s' : state) : Prop :=
 | ce_ret j :
     rm s = RmIn j -> rm s' = rm_after c (S j) -> hist s' = EReloadRet j :: hist s -> passes s' = passes s ->
     pending_requests s' = pending_requests s -> ce_effect c s s'
+| ce_start :
+    pre_run s -> rm s' = (if any_spec reloadable c then RmIdle else RmAbsent) ->
+    passes s' = passes s -> pending_requests s' <= pending_requests s -> hist s' = hist s -> ce_effect c s s'
 | ce_other :
     passes s' = passes s -> pending_requests s' <= pending_requests s ->
     (rm s' = rm s \/ (rm s = RmIdle /\ rm s' = RmDrain) \/ (rm s = RmDrain /\ rm s' = RmDone)) ->
@@ -124,6 +127,13 @@ Inductive ce_effect (c : config) (s s' : state) : Prop :=
 Ltac hist_other :=
   first [ left; reflexivity
         | right; eexists; split; [reflexivity|split; [reflexivity|intros ? X; discriminate X]] ].
+
+Lemma nfwd_fresh c (l : list rspec) :
+  count_if is_fwd (map (fun r => if rsender r && any_spec reloadable c then LsIdle else LsAbsent) l) = 0.
+Proof.
+  induction l as [|a l IH]; [reflexivity|]. cbn [map]. rewrite cnt_cons, IH.
+  destruct (rsender a && any_spec reloadable c); reflexivity.
+Qed.
 
 Lemma step_ce_effect c s l s' : step c s l = Some s' -> ce_effect c s s'.
 Proof.
@@ -141,7 +151,8 @@ Proof.
   all: try match goal with E : get LsAbsent (rls ?s) ?i = ?p |- _ =>
          assert (Hne : get LsAbsent (rls s) i <> LsAbsent) by (rewrite E; discriminate);
          pose proof (nfwd_upd (rls s) i LsIdle Hne) as Hfi; pose proof (nfwd_upd (rls s) i LsFwd Hne) as Hff;
-         rewrite E in Hfi, Hff; cbn [is_fwd b2n] in Hfi, Hff end.
+         pose proof (nfwd_upd (rls s) i LsDone Hne) as Hfd;
+         rewrite E in Hfi, Hff, Hfd; cbn [is_fwd b2n] in Hfi, Hff, Hfd end.
   all: try match goal with E : get 0 (rtrig (aux ?s)) ?i = S ?n |- _ =>
          assert (Hlt : i < length (rtrig (aux s))) by (apply get_pos_lt; rewrite E; discriminate);
          pose proof (sum_upd (rtrig (aux s)) i n Hlt) as Hsum; rewrite E in Hsum end.
@@ -163,6 +174,8 @@ Proof.
             unfold pending_requests; simp_st; rewrite ?cnt_snoc; cbn [pend_f b2n]; lia).
   all: try (eapply ce_call; [eassumption|reflexivity|reflexivity|reflexivity|reflexivity]; fail).
   all: try (eapply ce_ret; [eassumption|reflexivity|reflexivity|reflexivity|reflexivity]; fail).
+  all: try (apply ce_start; [right; assumption|reflexivity|reflexivity| |reflexivity];
+            unfold pending_requests; simp_st; rewrite nfwd_fresh; lia).
 Qed.
 
 (* ---------------------------------------------------------------- the first Reloadable *)
@@ -228,25 +241,22 @@ Lemma InvCnt_init c : InvCnt c (init c).
 Proof.
   split; [unfold pending_requests, init; simp_st|split].
   - assert (Z : forall n, list_sum (repeat 0 n) = 0) by (induction n; cbn; auto).
-    assert (F : forall l : list rspec, count_if is_fwd
-               (map (fun r => if rsender r && any_spec reloadable c then LsIdle else LsAbsent) l) = 0).
-    { induction l as [|a l IH]; [reflexivity|]. cbn [map]. rewrite cnt_cons, IH.
-      destruct (rsender a && any_spec reloadable c); reflexivity. }
+    assert (F : forall l : list rspec, count_if is_fwd (map (fun _ => LsAbsent) l) = 0).
+    { induction l as [|a l IH]; [reflexivity|]. cbn [map]. now rewrite cnt_cons, IH. }
     rewrite Z, F. reflexivity.
-  - intros i0 r Hr. unfold due. rewrite Hr. cbn. split.
-    + destruct (any_spec reloadable c); reflexivity.
-    + intros j [H|H]; destruct (any_spec reloadable c); discriminate H.
-  - intros Hr. cbn. rewrite (no_reloadables _ Hr). now split.
+  - intros i0 r Hr. unfold due. rewrite Hr. cbn. split; [reflexivity|].
+    intros j [H|H]; discriminate H.
+  - intros Hr. cbn. now split.
 Qed.
 
 Lemma not_call_eqb i0 x : not_reload_call x -> event_eqb (EReloadCall i0) x = false.
 Proof. intros H. destruct x; try reflexivity. exfalso. eapply H. reflexivity. Qed.
 
-Lemma InvCnt_step c s l s' : InvCnt c s -> step c s l = Some s' -> InvCnt c s'.
+Lemma InvCnt_step c s l s' : InvAbs s -> InvCnt c s -> step c s l = Some s' -> InvCnt c s'.
 Proof.
-  intros (I1 & I2 & I3) H.
+  intros IA (I1 & I2 & I3) H.
   destruct (step_ce_effect _ _ _ _ H)
-    as [Ei Er Ep Eh Epr | x Hx Eh Er Ep Epr | j Ej Er Eh Ep Epr | j Ej Er Eh Ep Epr | Ep Epr Er Eh].
+    as [Ei Er Ep Eh Epr | x Hx Eh Er Ep Epr | j Ej Er Eh Ep Epr | j Ej Er Eh Ep Epr | Epre Er Ep Epr Eh | Ep Epr Er Eh].
   - (* rendezvous *)
     split; [rewrite Eh; lia|split].
     + intros i0 r Hr. destruct (I2 _ _ Hr) as (P & J). unfold due in *. rewrite Hr in *.
@@ -277,6 +287,14 @@ Proof.
         intros k' [X|X]; [injection X as <-; lia|discriminate X].
       * split; [lia|]. intros k' [X|X]; discriminate X.
     + intros Hr. destruct (I3 Hr) as (X & _). congruence.
+  - (* Run() entered: the reload manager is created, or not *)
+    destruct (IA Epre) as (Ea & _).
+    split; [rewrite Eh; lia|split].
+    + intros i0 r Hr. destruct (I2 _ _ Hr) as (P & J). unfold due in *. rewrite Hr in *.
+      rewrite Ea in P. rewrite Er, Eh, Ep.
+      split; [destruct (any_spec reloadable c); exact P|].
+      intros j [X|X]; destruct (any_spec reloadable c); discriminate X.
+    + intros Hr. destruct (I3 Hr) as (_ & Y). rewrite Er, Ep, (no_reloadables _ Hr). now split.
   - (* everything else *)
     assert (Hf : length (filter req_ev (hist s')) = length (filter req_ev (hist s))).
     { destruct Eh as [->|(x & -> & Hx & _)]; [reflexivity|]. cbn [filter]. now rewrite Hx. }
@@ -294,7 +312,14 @@ Proof.
 Qed.
 
 Lemma InvCnt_reachable c s : reachable_sup c s -> InvCnt c s.
-Proof. apply sup_inv; [apply InvCnt_init|apply InvCnt_step]. Qed.
+Proof.
+  intros Hr.
+  assert (G : InvAbs s /\ InvCnt c s).
+  { revert s Hr. apply sup_inv.
+    - split; [apply InvAbs_init|apply InvCnt_init].
+    - intros s0 l s1 [IA I] Hs. split; [eapply InvAbs_step; eassumption|eapply InvCnt_step; eassumption]. }
+  apply G.
+Qed.
 
 (* ---------------------------------------------------------------- theorems *)
 
@@ -346,4 +371,272 @@ Proof.
          pose proof (nfwd_upd (rls s) i LsIdle Hne) as Hfi; rewrite E in Hfi; cbn [is_fwd b2n] in Hfi end.
   all: repeat split; try reflexivity; try assumption; unfold pending_requests; simp_st;
     repeat match goal with E : hup _ = _ |- _ => rewrite E end; lia.
+Qed.
+
+(* ---------------------------------------------------------------- no request is lost (lower bound) *)
+
+(* While the supervisor's context is not cancelled and some runnable is Reloadable, the accounting is EXACT: every
+   request made so far (ReloadAll() call, SIGHUP SendSignal call, trigger offered on a reload-trigger channel) is
+   either still on its way - counted in pending_requests - or was handed to the reload manager in a rendezvous of
+   its own (passes).  The only ways a request leaves the system without a pass need a cancelled context (a caller
+   or a listener gives up on ctx.Done) or a configuration without any Reloadable (SIGHUP is then ignored). *)
+
+Lemma ctx_done_mono c s l s' : step c s l = Some s' -> ctx_done s = true -> ctx_done s' = true.
+Proof.
+  intros H. unfold step in H. unfold ctx_done.
+  destruct l; cbn [step0] in H; unfold start_shutdown, store_state in H;
+    step_cases H; inversion H; subst; clear H; simp_st; auto.
+  all: try (intros X; rewrite ?X, ?orb_true_r; reflexivity).
+Qed.
+
+Lemma rtrig_len_step c s l s' :
+  step c s l = Some s' -> length (rtrig (aux s)) = nrun c -> length (rtrig (aux s')) = nrun c.
+Proof.
+  intros H L. unfold step in H.
+  destruct l; cbn [step0] in H; unfold start_shutdown, store_state in H;
+    step_cases H; inversion H; subst; clear H; simp_st; rewrite ?upd_length; exact L.
+Qed.
+
+(* the reload manager starts to drain only after the context was cancelled *)
+Definition InvDrain (s : state) : Prop := rm s = RmDrain -> ctx_done s = true.
+
+Lemma rm_after_not_drain c j : rm_after c j <> RmDrain.
+Proof. destruct (rm_after_cases c j) as [[k E]|E]; rewrite E; discriminate. Qed.
+
+Lemma InvDrain_step c s l s' : InvDrain s -> step c s l = Some s' -> InvDrain s'.
+Proof.
+  intros ID H. unfold step in H. unfold InvDrain, ctx_done in *.
+  destruct l; cbn [step0] in H; unfold start_shutdown, store_state in H;
+    step_cases H; inversion H; subst; clear H; simp_st.
+  all: try exact ID.
+  all: try (intros E; discriminate E).
+  all: try (intros E; exfalso; exact (rm_after_not_drain _ _ E)).
+  all: try (intros E; rewrite ?orb_true_r; reflexivity).
+  all: try (intros E; rewrite (ID E); reflexivity).
+  all: try (intros _; assumption).
+  all: try (intros E; destruct (any_spec reloadable c); discriminate E).
+  all: try (intros E; specialize (ID E); apply orb_true_iff in ID as [X|X]; rewrite X, ?orb_true_r; reflexivity).
+Qed.
+
+Definition req_of (l : label) : nat :=
+  match obs l with Some e => b2n (req_ev e) | None => 0 end.
+
+Lemma nfwd_absent (l : list ls_pc) : (forall i, get LsAbsent l i = LsAbsent) -> count_if is_fwd l = 0.
+Proof.
+  induction l as [|p l IH]; intros H; [reflexivity|]. rewrite cnt_cons.
+  pose proof (H 0) as H0. unfold get in H0. cbn in H0. subst p. cbn [is_fwd b2n].
+  apply IH. intros i. exact (H (S i)).
+Qed.
+
+Lemma step_pending_exact c s l s' :
+  step c s l = Some s' -> ctx_done s = false -> any_spec reloadable c = true ->
+  length (rtrig (aux s)) = nrun c -> InvAbs s -> InvDrain s ->
+  passes s' + pending_requests s' = passes s + pending_requests s + req_of l.
+Proof.
+  intros H Hc Hr Hlen IA ID. unfold step in H. unfold req_of. unfold InvDrain in ID.
+  destruct l; cbn [step0 obs] in H |- *; unfold start_shutdown, store_state in H;
+    rewrite ?Hc, ?Hr, ?andb_false_r in H; cbn [andb negb] in H; try discriminate H;
+    step_cases H; inversion H; subst; clear H.
+  all: repeat match goal with E : _ && _ = true |- _ => apply andb_true_iff in E as [? ?] end.
+  all: repeat match goal with E : (_ =? _) = true |- _ => apply Nat.eqb_eq in E; subst end.
+  all: repeat match goal with E : (_ <? _) = true |- _ => apply Nat.ltb_lt in E end.
+  all: repeat match goal with g : sig |- _ => destruct g end.
+  all: repeat match goal with o : op |- _ => destruct o end.
+  all: repeat match goal with g : sig |- _ => destruct g end.
+  all: repeat match goal with x : cstate |- _ => destruct x end.
+  all: try discriminate.
+  all: try congruence.
+  all: try (exfalso; match goal with E : rm _ = RmDrain |- _ => rewrite (ID E) in Hc; discriminate Hc end).
+  all: try (exfalso; rewrite (ID eq_refl) in Hc; discriminate Hc).
+  all: try match goal with E : find_caller ?k (callers ?s) = Some _ |- _ =>
+         pose proof (npend_del k _ _ _ E) as Hdel; pose proof (npend_set k CReady _ _ _ E) as Hrdy;
+         pose proof (npend_set k CPending _ _ _ E) as Hpnd; cbn [pend_f b2n] in Hdel, Hrdy, Hpnd end.
+  all: try match goal with E : get LsAbsent (rls ?s) ?i = ?p |- _ =>
+         assert (Hne : get LsAbsent (rls s) i <> LsAbsent) by (rewrite E; discriminate);
+         pose proof (nfwd_upd (rls s) i LsIdle Hne) as Hfi; pose proof (nfwd_upd (rls s) i LsFwd Hne) as Hff;
+         rewrite E in Hfi, Hff; cbn [is_fwd b2n] in Hfi, Hff end.
+  all: try match goal with E : get 0 (rtrig (aux ?s)) ?i = S ?n |- _ =>
+         assert (Hlt : i < length (rtrig (aux s))) by (apply get_pos_lt; rewrite E; discriminate);
+         pose proof (sum_upd (rtrig (aux s)) i n Hlt) as Hsum; rewrite E in Hsum end.
+  all: try match goal with |- context [upd (rtrig (aux ?s)) ?i (S ?g)] =>
+         pose proof (sum_upd (rtrig (aux s)) i (S g) ltac:(rewrite Hlen; assumption)) as Hsum end.
+  all: try (match goal with E : main _ = MEntering |- _ =>
+              pose proof (nfwd_absent _ (proj1 (proj2 (proj2 (proj2 (IA (or_intror E))))))) as Hnf end).
+  all: unfold pending_requests; simp_st; cbn [req_ev b2n];
+    repeat match goal with E : sigq _ = _ |- _ => rewrite E end;
+    repeat match goal with E : hup _ = _ |- _ => rewrite E end;
+    rewrite ?cnt_snoc, ?cnt_cons, ?nfwd_mark, ?nfwd_fresh; cbn [pend_f is_hup is_fwd b2n]; try lia.
+Qed.
+
+Definition InvExact (c : config) (s : state) : Prop :=
+  length (rtrig (aux s)) = nrun c /\
+  (ctx_done s = false -> any_spec reloadable c = true ->
+   passes s + pending_requests s = length (filter req_ev (hist s))).
+
+Lemma InvExact_step c s l s' : InvAbs s -> InvDrain s -> InvExact c s -> step c s l = Some s' -> InvExact c s'.
+Proof.
+  intros IA ID [L E] H. split; [eapply rtrig_len_step; eassumption|].
+  intros Hc' Hr.
+  assert (Hc : ctx_done s = false).
+  { destruct (ctx_done s) eqn:X; [|reflexivity]. rewrite (ctx_done_mono _ _ _ _ H X) in Hc'. discriminate Hc'. }
+  rewrite (step_pending_exact _ _ _ _ H Hc Hr L IA ID), (E Hc Hr), (step_hist _ _ _ _ H). unfold req_of.
+  destruct (obs l) as [e|]; cbn [filter]; [|lia]. destruct (req_ev e); cbn [length b2n]; lia.
+Qed.
+
+Lemma InvExact_reachable c s : reachable_sup c s -> InvExact c s.
+Proof.
+  intros Hr.
+  assert (G : InvAbs s /\ InvDrain s /\ InvExact c s).
+  { revert s Hr. apply sup_inv.
+    - split; [apply InvAbs_init|]. split; [intros X; discriminate X|]. split; [cbn; apply repeat_length|]. intros _ _.
+      destruct (InvCnt_init c) as (I1 & _). cbn [hist init filter length] in *.
+      assert (pending_requests (init c) = 0).
+      { unfold pending_requests, init; simp_st.
+        assert (Z : forall n, list_sum (repeat 0 n) = 0) by (induction n; cbn; auto).
+        assert (F : forall l : list rspec, count_if is_fwd (map (fun _ => LsAbsent) l) = 0).
+        { induction l as [|a l IH]; [reflexivity|]. cbn [map]. now rewrite cnt_cons, IH. }
+        rewrite Z, F. reflexivity. }
+      cbn [passes init]. lia.
+    - intros s0 l s1 (IA & ID & I) Hs. split; [eapply InvAbs_step; eassumption|].
+      split; [eapply InvDrain_step; eassumption|eapply InvExact_step; eassumption]. }
+  apply G.
+Qed.
+
+(* C05 (no request lost): exact accounting while the context is live and something is Reloadable *)
+Theorem sup_c05_no_request_lost c s :
+  reachable_sup c s -> ctx_done s = false -> any_spec reloadable c = true ->
+  passes s + pending_requests s = requests_upper (rev (hist s)).
+Proof.
+  intros Hre Hc Hr. rewrite requests_upper_eq, filter_rev_length.
+  exact (proj2 (InvExact_reachable _ _ Hre) Hc Hr).
+Qed.
+
+(* ... hence at a quiescent point with an idle manager and Run() in reap() - where nothing is pending any more
+   (C05_no_loss) apart from trigger offers no listener exists for - every request has had its rendezvous *)
+Lemma nfwd_none c (l : list ls_pc) :
+  length l <= nrun c -> (forall i, i < nrun c -> get LsAbsent l i <> LsFwd) -> count_if is_fwd l = 0.
+Proof.
+  intros L H. assert (G : forall i, get LsAbsent l i <> LsFwd).
+  { intros i. destruct (Nat.lt_ge_cases i (nrun c)) as [X|X]; [now apply H|].
+    unfold get. rewrite nth_overflow by lia. discriminate. }
+  clear H L. induction l as [|p l IH]; [reflexivity|]. rewrite cnt_cons.
+  pose proof (G 0) as G0. unfold get in G0. cbn in G0.
+  rewrite IH; [destruct p; try reflexivity; congruence|]. intros i. exact (G (S i)).
+Qed.
+
+Lemma npend_none (l : list (nat * op * cstate)) :
+  (forall k o, In (k, o, CPending) l -> o <> OpReloadAll /\ o <> OpSignal SigHup) -> count_if pend_f l = 0.
+Proof.
+  induction l as [|[[k o] cs] l IH]; intros H; [reflexivity|]. rewrite cnt_cons.
+  assert (R : count_if pend_f l = 0) by (apply IH; intros k' o' X; apply (H k' o'); now right).
+  rewrite R. destruct cs; try (destruct o as [| |[]]; reflexivity).
+  destruct (H k o (or_introl eq_refl)) as [A B]. destruct o as [| |[]]; try reflexivity; congruence.
+Qed.
+
+(* caller ids are unique: find_caller returns THE entry of k *)
+Definition InvUniq (s : state) : Prop := NoDup (map (fun kc => fst (fst kc)) (callers s)).
+
+Lemma In_keys_set k cs l x : In x (map (fun kc : nat * op * cstate => fst (fst kc)) (set_caller k cs l)) <->
+                             In x (map (fun kc : nat * op * cstate => fst (fst kc)) l).
+Proof.
+  induction l as [|[[k1 o1] c1] t IH]; [tauto|]. cbn [set_caller]. destruct (Nat.eqb k k1); cbn [map fst In]; tauto.
+Qed.
+
+Lemma keys_set k cs l : map (fun kc : nat * op * cstate => fst (fst kc)) (set_caller k cs l) =
+                        map (fun kc : nat * op * cstate => fst (fst kc)) l.
+Proof.
+  induction l as [|[[k1 o1] c1] t IH]; [reflexivity|]. cbn [set_caller]. destruct (Nat.eqb k k1); cbn [map fst]; [reflexivity|now rewrite IH].
+Qed.
+
+Lemma find_none_notin k l : find_caller k l = None -> ~ In k (map (fun kc : nat * op * cstate => fst (fst kc)) l).
+Proof.
+  induction l as [|[[k1 o1] c1] t IH]; intros H; [tauto|]. cbn [find_caller] in H. cbn [map fst In].
+  destruct (Nat.eqb k k1) eqn:E; [discriminate H|]. apply Nat.eqb_neq in E. intros [X|X]; [congruence|exact (IH H X)].
+Qed.
+
+Lemma nodup_del k l : NoDup (map (fun kc : nat * op * cstate => fst (fst kc)) l) ->
+                      NoDup (map (fun kc : nat * op * cstate => fst (fst kc)) (del_caller k l)).
+Proof.
+  induction l as [|[[k1 o1] c1] t IH]; intros H; [constructor|]. cbn [del_caller]. inversion H; subst.
+  destruct (Nat.eqb k k1); [assumption|]. cbn [map fst]. constructor; [|auto].
+  intros X. apply H2. clear -X. induction t as [|[[k2 o2] c2] t IH]; [destruct X|]. cbn [del_caller] in X.
+  destruct (Nat.eqb k k2); cbn [map fst In] in *; [now right|]. destruct X as [X|X]; [now left|right; auto].
+Qed.
+
+Lemma NoDup_app_snoc {A} (l : list A) x : NoDup l -> ~ In x l -> NoDup (l ++ [x]).
+Proof.
+  induction l as [|y l IH]; intros H N; [constructor; [tauto|constructor]|].
+  inversion H; subst. cbn [app]. constructor.
+  - intros X. apply in_app_or in X as [X|[X|[]]]; [contradiction|]. subst. apply N. now left.
+  - apply IH; [assumption|]. intros X. apply N. now right.
+Qed.
+
+Lemma InvUniq_step c s l s' : InvUniq s -> step c s l = Some s' -> InvUniq s'.
+Proof.
+  intros IU H. unfold step in H. unfold InvUniq in *.
+  destruct l; cbn [step0] in H; unfold start_shutdown, store_state in H;
+    step_cases H; inversion H; subst; clear H; simp_st; rewrite ?keys_set.
+  all: try exact IU.
+  all: try (now apply nodup_del).
+  all: try (rewrite map_app; cbn [map fst]; apply NoDup_app_snoc; [exact IU|]; now apply find_none_notin).
+Qed.
+
+Lemma InvUniq_reachable c s : reachable_sup c s -> InvUniq s.
+Proof. apply sup_inv; [constructor|apply InvUniq_step]. Qed.
+
+Lemma find_caller_uniq k o cs (l : list (nat * op * cstate)) :
+  NoDup (map (fun kc => fst (fst kc)) l) -> In (k, o, cs) l -> find_caller k l = Some (o, cs).
+Proof.
+  induction l as [|[[k1 o1] c1] t IH]; intros N H; [destruct H|]. cbn [find_caller]. cbn [map fst] in N. inversion N; subst.
+  destruct H as [H|H].
+  - injection H as -> -> ->. now rewrite Nat.eqb_refl.
+  - destruct (Nat.eqb k k1) eqn:E; [|auto]. apply Nat.eqb_eq in E. subst. exfalso. apply H2.
+    apply in_map_iff. exists (k1, o, cs). split; [reflexivity|exact H].
+Qed.
+
+(* C05 (no request lost, at quiescence): the supervisor running (context live, Run() in reap()), something
+   Reloadable, the system quiescent with an idle reload manager: every request made so far has had a rendezvous
+   of its own with the manager - except trigger offers nobody has received (list_sum rtrig: offers on the channel
+   of a runnable that has no listener) *)
+Theorem sup_c05_all_served c s :
+  reachable_sup c s -> quiescent c s = true -> ctx_done s = false -> any_spec reloadable c = true ->
+  rm s = RmIdle -> main s = MReap ->
+  passes s + list_sum (rtrig (aux s)) = requests_upper (rev (hist s)).
+Proof.
+  intros Hre Q Hc Hr Er Em.
+  pose proof (sup_c05_no_request_lost c s Hre Hc Hr) as E.
+  destruct (sup_c05_no_loss c s Q Er) as (Hh & Hf & Hp).
+  assert (Sq : sigq s = []).
+  { assert (Hin : In LReapSig (taus_nt c s)) by (in_chain ltac:(cbn; auto)).
+    pose proof (quiescent_taus _ _ _ Q Hin) as H. cbn [step0] in H. rewrite Em in H.
+    destruct (sigq s) as [|g q]; [reflexivity|]. destruct g; try discriminate H. }
+  assert (Pc : count_if pend_f (callers s) = 0).
+  { apply npend_none. intros k o Hin. split; intros ->.
+    - apply (Hp k CPending Hin). now apply find_caller_uniq; [apply (InvUniq_reachable c)|].
+    - assert (Hin' : In (LSigPut k) (taus_nt c s))
+        by (in_chain ltac:(apply in_map_iff; eexists; split; [|exact Hin]; reflexivity)).
+      pose proof (quiescent_taus _ _ _ Q Hin') as H. cbn [step0] in H.
+      rewrite (find_caller_uniq k _ _ _ (InvUniq_reachable c s Hre) Hin), Sq in H. discriminate H. }
+  assert (Fw : count_if is_fwd (rls s) = 0).
+  { apply (nfwd_none c); [exact (proj1 (InvLen_reachable _ _ Hre))|exact Hf]. }
+  unfold pending_requests in E. rewrite Pc, Sq, Hh, Fw in E. cbn in E. lia.
+Qed.
+
+(* C05 (a begun pass completes): a pass the manager has accepted is never stuck before a Reload() call - that call
+   is the manager's own next step - and inside a Reload() call the only thing it waits for is that call's return *)
+Theorem sup_c05_pass_completes c s j :
+  (rm s = RmNext j -> step c s (LReloadCall j) <> None) /\
+  (rm s = RmIn j -> step c s (LReloadRet j) <> None) /\
+  (quiescent c s = true -> j < nrun c -> rm s <> RmNext j).
+Proof.
+  split; [|split].
+  - intros E. unfold step. cbn [step0]. rewrite E, Nat.eqb_refl. discriminate.
+  - intros E. unfold step. cbn [step0]. rewrite E, Nat.eqb_refl. discriminate.
+  - intros Q Lj E.
+    assert (Hin : In (LReloadCall j) (autos c s)).
+    { unfold autos. rewrite !in_app_iff. right. right. left. apply in_map_iff. exists j. split; [reflexivity|]. apply in_seq. cbn. lia. }
+    assert (H : step0 c s (LReloadCall j) = None).
+    { unfold quiescent in Q. rewrite forallb_forall in Q.
+      specialize (Q _ (in_or_app _ _ _ (or_intror Hin))). destruct (step0 c s (LReloadCall j)); [discriminate|reflexivity]. }
+    cbn [step0] in H. rewrite E, Nat.eqb_refl in H. discriminate H.
 Qed.
